@@ -1117,7 +1117,7 @@ func ordinalOfIface(in ssa.Instruction, ms ...*types.Func) string {
 }
 
 func init() {
-	register("C17", "Clause decided (one clause; where a statement boundary lies is a question about the SQL grammar over all texts and is not decided): the first failing statement stops execution and every piece is executed through the checked path: in SessionExecutor.doMultiStmts every piece of the split text is handed to doQuery (the gate of C21) and on the error edge of a piece's doQuery no further piece is executed and no further result is written before the function returns that error; a piece's result is written to the client only on the success edge.",
+	register("C17", "Clauses decided: (split) boundaries are decided on the SQL lexer's own token stream — in parser.SplitStatementToPieces every returned piece was appended inside the tokenizer loop or is the whole text (two constant fast paths); a second, lexer-free way of splitting is reported (what the lexer itself accepts is not examined); (stop) the first failing statement stops execution and every piece is executed through the checked path: in SessionExecutor.doMultiStmts every piece of the split text is handed to doQuery (the gate of C21) and on the error edge of a piece's doQuery no further piece is executed and no further result is written before the function returns that error; a piece's result is written to the client only on the success edge.",
 		ruleC17)
 }
 
@@ -1217,5 +1217,111 @@ func ruleC17(c *Ctx, r *Report) {
 		r.ok(rule, name, "pieces-from-splitter", c.Pos(fn.Pos()), "the executed pieces are the elements of SplitStatementToPieces' result, in order")
 	} else {
 		r.viol(rule, name, "pieces-from-splitter", c.Pos(fn.Pos()), "the loop does not iterate over the splitter's result")
+	}
+}
+
+// ruleC17split (MP-C17split): statement boundaries are decided on the lexer's token stream. In
+// parser.SplitStatementToPieces every piece handed back was appended inside the tokenizer loop (the append is dominated by
+// a (*Scanner).scan call) or is the whole text / the text minus its last byte (the two constant fast paths); no []string
+// produced by anything else (strings.Split and friends) reaches the result.
+func init() { register("C17", "", ruleC17split) }
+
+func ruleC17split(c *Ctx, r *Report) {
+	const rule = "MP-C17split"
+	r.floor(rule, 2)
+	fn := c.Func("parser", "SplitStatementToPieces")
+	scan := c.Method("parser", "Scanner", "scan")
+	if fn == nil || scan == nil {
+		r.undecided(rule, "parser.SplitStatementToPieces", "anchor", "-", "SplitStatementToPieces / (*Scanner).scan not found")
+		return
+	}
+	name := c.FuncName(fn)
+	scans := callsIn(fn, func(cc *ssa.CallCommon) bool { return callsFunc(cc, scan) })
+	if len(scans) == 0 {
+		r.viol(rule, name, "pieces:from-token-stream", c.Pos(fn.Pos()), "the splitter does not drive the SQL lexer at all")
+		return
+	}
+	blob := ssa.Value(fn.Params[0])
+	nret := 0
+	for _, ret := range returnsOf(fn) {
+		vals, zero := retValues(ret, 0)
+		if zero {
+			continue
+		}
+		nret++
+		cons := fmt.Sprintf("pieces:from-token-stream#%d", nret)
+		bad := ""
+		seen := map[ssa.Value]bool{}
+		var walk func(v ssa.Value)
+		walk = func(v ssa.Value) {
+			v = stripValue(v)
+			if seen[v] || bad != "" {
+				return
+			}
+			seen[v] = true
+			switch x := v.(type) {
+			case *ssa.Phi:
+				for _, e := range x.Edges {
+					walk(e)
+				}
+			case *ssa.Const:
+			case *ssa.MakeSlice:
+			case *ssa.UnOp:
+				for _, l := range phiLeaves(x) {
+					if l != ssa.Value(x) {
+						walk(l)
+					} else {
+						bad = "a piece list of unknown origin is returned"
+					}
+				}
+			case *ssa.Slice:
+				// []string{blob} / []string{blob[:len-1]} : a one-element literal holding (a prefix of) the text
+				arr, ok := x.X.(*ssa.Alloc)
+				if !ok {
+					walk(x.X)
+					return
+				}
+				for _, e := range variadicElems(x) {
+					e = stripValue(e)
+					if e == blob {
+						continue
+					}
+					if sl, ok := e.(*ssa.Slice); ok && stripValue(sl.X) == blob {
+						continue
+					}
+					bad = "a literal piece that is not the statement text is returned"
+				}
+				_ = arr
+			case *ssa.Call:
+				if bi, ok := x.Call.Value.(*ssa.Builtin); ok && bi.Name() == "append" {
+					dom := false
+					for _, sc := range scans {
+						if instrDominates(sc, x) {
+							dom = true
+						}
+					}
+					if !dom {
+						bad = "pieces are appended outside the tokenizer loop: the text is split without the lexer (quotes, comments of every kind are not seen)"
+						return
+					}
+					walk(x.Call.Args[0])
+					return
+				}
+				bad = "pieces produced by " + calleeLabel(&x.Call) + " reach the result: the text is split without the lexer, so a ';' inside a comment or literal the lexer would skip starts a new statement"
+			default:
+				bad = "a piece list of unknown origin is returned"
+			}
+		}
+		for _, v := range vals {
+			walk(v)
+		}
+		if bad == "" {
+			r.ok(rule, name, cons, c.Pos(ret.Pos()), "the pieces returned here were cut inside the tokenizer loop (or are the whole text)")
+		} else {
+			r.viol(rule, name, cons, c.Pos(ret.Pos()), bad)
+		}
+	}
+	if nret == 0 {
+		r.undecided(rule, name, "pieces:from-token-stream", c.Pos(fn.Pos()), "no return with pieces found")
 	}
 }
